@@ -124,6 +124,13 @@ def _shipped(ctx, key, depth, light=False):
         r2 = ctx.call("C18.pure", f, key, depth)
         ctx.check("C18.pure", r1 == r2 and isinstance(r1, list) and len(r1) == depth
                   and all(isinstance(v, int) and 0 <= v <= M64 for v in r1), lambda: f"{name}({key!r},{depth}) -> {r1!r} / {r2!r}")
+        # the returned list belongs to the caller: editing it must not reach later calls (no shared / cached list object)
+        saved = list(r1)
+        r1.append(0)
+        del r1[:1]
+        r3 = f(key, depth)
+        ctx.check("C18.pure", r3 == saved and r3 is not r1, lambda: f"{name}({key!r},{depth}) after the caller edited an earlier result: {r3!r} != {saved!r}")
+        r1 = saved
         js = range(1, depth + 1) if not light else (1, max(1, depth - 1))
         for j in js:
             rj = f(key, j)
